@@ -80,3 +80,49 @@ any_in_impl!(any_usize_in, usize);
 any_in_impl!(any_u32_in, u32);
 any_in_impl!(any_u8_in, u8);
 any_in_impl!(any_i32_in, i32);
+
+// ---- raw injection: the harness plays "the other process" with plain system calls, so that the
+// ---- descriptors a packet carries are constants for the symbolic executor (values that pass
+// ---- through a heap-allocated enum such as Vec<OsIpcChannel> are not: Kani/CBMC cannot
+// ---- constant-fold enum reads from dynamic objects)
+
+/// one packet as the crate's sender would put it on the wire: optional header word, payload,
+/// descriptors (SCM_RIGHTS)
+pub fn inject(fd: c_int, header: Option<usize>, payload: &[u8], fds: &[c_int]) -> isize {
+    unsafe {
+        let mut hdr = header.unwrap_or(0);
+        let mut iov = [
+            libc::iovec { iov_base: &mut hdr as *mut usize as *mut libc::c_void, iov_len: 8 },
+            libc::iovec { iov_base: payload.as_ptr() as *mut libc::c_void, iov_len: payload.len() },
+        ];
+        if header.is_none() {
+            return libc::send(fd, payload.as_ptr() as *const libc::c_void, payload.len(), 0);
+        }
+        // control buffer on the stack: 16-byte header + up to 70 descriptors
+        let mut ctl = [0u64; 2 + 35];
+        let mut m: libc::msghdr = core::mem::zeroed();
+        m.msg_iov = iov.as_mut_ptr();
+        m.msg_iovlen = 2;
+        if !fds.is_empty() {
+            let c = ctl.as_mut_ptr() as *mut libc::cmsghdr;
+            (*c).cmsg_len = 16 + 4 * fds.len();
+            (*c).cmsg_level = libc::SOL_SOCKET;
+            (*c).cmsg_type = libc::SCM_RIGHTS;
+            let p = (c as *mut u8).add(16) as *mut c_int;
+            let mut i = 0;
+            while i < fds.len() {
+                *p.add(i) = fds[i];
+                i += 1;
+            }
+            m.msg_control = c as *mut libc::c_void;
+            m.msg_controllen = 16 + ((4 * fds.len() + 7) & !7);
+        }
+        libc::sendmsg(fd, &m, 0)
+    }
+}
+pub fn rx_from_fd(fd: c_int) -> OsIpcReceiver {
+    ph::opaque_from_fd(fd).to_receiver()
+}
+pub fn tx_from_fd(fd: c_int) -> OsIpcSender {
+    ph::opaque_from_fd(fd).to_sender()
+}
